@@ -354,4 +354,4 @@ Definition norm_class (c : cdiff) : cdiff :=
   mkCD (cd_name c) (norm_action (cd_info c)) (norm_action (cd_doc c))
        (map norm_field (cd_fields c)) (map norm_meth (cd_methods c)).
 Definition norm (d : mdiffs) : mdiffs :=
-  mkDiff (d_info d) (d_doc d) (map norm_class (d_classes d)).
+  mkDiff (d_info d) (norm_action (d_doc d)) (map norm_class (d_classes d)).
